@@ -35,7 +35,40 @@ T = {
          E1_NOTE, '4 C07'),
 }
 
-BUILT = ['C01', 'C02', 'C03', 'C04', 'C05', 'C06', 'C07']
+
+E3_NOTE = 'drives the real code of /repo directly; bounded-exhaustive over the stated finite domains only (sizes, value kinds, depths listed in the evidence); reference models are written in checks/cNN.py.'
+
+T.update({
+ 'C09': ('E3-enum', 'exploration', 'bounded-exhaustive input enumeration of frame sets through the real MQ.frames2topicmsgs / topicmsgs2frames, compared with the input',
+         'Cross product of frame kinds (no image / GRAY / BGR / RGB x 7 sizes x 7 memory layouts incl. jpg-backed), data shapes, outputs_jpg settings and transports, every single kind under normal and hidden topics, all ordered pairs of a reduced kind set, 3-4 topic sets; enumerated completely.',
+         E3_NOTE, '4 C09'),
+ 'C10': ('E3-enum', 'model_checking', 'explicit-state breadth-first search over operation sequences on the real Frame class with a reference model of pixel provenance, deduplicated on a canonical state abstraction',
+         'All sequences to depth 3 (quick) / 4 (thorough) over 21 operations (constructors, copy, rw/ro/rgb/bgr/gray/rw_*/ro_*, .image, .jpg, pickle, poke through any live writable array) from 12 start states; after every step every accessor result is compared with the reference conversion of the source\'s current pixels, aliasing and writability promises and the jpg-cache invariant are checked.',
+         E3_NOTE, '4 C10'),
+ 'C11': ('E3-enum', 'exploration', 'bounded-exhaustive enumeration of valid configurations per filter class through the real normalize_config / parse_topics / parse_options',
+         'For the base Filter and each built-in filter class: configs generated from the documented grammar (1-2 / 1-4 sources or outputs, every topic and option production, whitespace and credential variants); N(N(c)) == N(c), N(text) == N(struct), parse(render(x)) == x, enumerated completely.',
+         E3_NOTE, '4 C11'),
+ 'C12': ('E3-enum', 'exploration', 'bounded-exhaustive enumeration of command lines through the real cli.common.parse_filters',
+         'Every command line of 1-3 (quick) / 1-5 (thorough) filters over the per-filter --id / --sources / --outputs alphabets and --ipc on/off; unique ids, id sources resolved to an address exactly one filter binds with suffix preserved, auto-allocated port pairs disjoint, user-written values untouched.',
+         E3_NOTE, '4 C12'),
+ 'C13': ('E3-enum', 'model_checking', 'explicit-state breadth-first search over RollLog operation sequences (write/read/read_block/seek/tell/refresh/reopen/external delete, controlled clock) with a list reference model',
+         'All operation sequences to depth 5 (quick) / 7 (thorough) over the alphabet, for all four modes and several file_size/total_size settings, on a real temp directory; reader output must be a duplicate-free order-preserving subsequence whose gaps are whole pruned/deleted files; size budget, newest-file and no-overwrite invariants after every write.',
+         E3_NOTE, '4 C13'),
+ 'C14': ('E3-enum', 'fault_enumeration', 'crash-point enumeration: every file-system operation (and torn write prefix) of every head save of every bounded history, then restart and compare with the model of acknowledged saves',
+         'Histories of writes / reads / position saves to the stated depth; a crash before and after every open / write prefix / close / rename of every save and between reader operations; up to 2 (quick) / 3 (thorough) crash-restart cycles; restart must succeed at the previous or the new saved position, nothing on disk skipped, only the unsaved tail repeated.',
+         E3_NOTE, '4 C14'),
+ 'C15': ('E3-enum', 'exploration', 'bounded-exhaustive enumeration of credential-bearing configurations through real Filter construction/init with captured log records, frame metadata and lineage facets',
+         'Filter classes x URI-valued fields x schemes x users x password specials x placements (string, comma list, list, tuple, nested dict, per-source record, extra key), before and after normalisation; the secret marker must occur in no captured sink while scheme and host stay readable.',
+         E3_NOTE, '4 C15'),
+ 'C16': ('E3-enum', 'exploration', 'bounded-exhaustive enumeration of allow-lists x declared instruments x value sequences through a real OpenTelemetry MeterProvider and the real OTelLineageExporter',
+         'Allow-list sources (absent, empty, names, patterns, YAML, YAML+env) x contents x instrument subsets x recorded values; exported keys must be a subset of the fnmatch reference, empty/absent list exports nothing, histogram facets well-formed.',
+         E3_NOTE, '4 C16'),
+ 'C17': ('E3-enum', 'exploration', 'bounded-exhaustive enumeration of image sizes x bounds x transform forms through the real size arithmetic (cv2.resize stubbed for the arithmetic sweep, real for a fixed-stride slice), and of all small images for the pixel laws',
+         'All (h, w, H, W) in [1..24]^4 (quick) / larger (thorough) x {maxsize, minsize, resize} x {x, +} forms for Util and VideoReader; all small images x flips / rotations / format changes / box / chains of <= 3 transforms against a NumPy reference.',
+         E3_NOTE, '4 C17'),
+})
+
+BUILT = ['C01', 'C02', 'C03', 'C04', 'C05', 'C06', 'C07', 'C09', 'C10']
 
 def main():
     checks = []
